@@ -577,10 +577,10 @@ def c19(tier, seed):
     ck = Check('C19', tier, seed)
     prog = load_program()
     ck.selftest = quick_selftest(prog, seed, 12 if tier == 'quick' else 150, kinds=['mem', 'alt', 'ovl'])
-    cases = [{'cfg': c, 'kind': k, 'steps': 2 if tier == 'quick' else 3} for c in ['mem', 'alt', 'ovl_upper', 'ovl_lower', 'phys', 'alt_phys'] for k in ['file', 'dir']]
+    cases = [{'cfg': c, 'kind': k, 'steps': 2 if tier == 'quick' else 3} for c in ['mem', 'alt', 'ovl_upper', 'ovl_lower', 'ovl_both', 'phys', 'alt_phys'] for k in ['file', 'dir']]
     cases += [{'cfg': c, 'kind': 'root', 'steps': 2 if tier == 'quick' else 3} for c in ['mem', 'alt', 'ovl_upper', 'phys']]
     ck.add(run_cases(prog, times.run_times_case, cases), 'setter sequences with symbolic SystemTime values on files and directories')
-    ck.bounds = {'configs': ['mem', 'alt', 'ovl_upper', 'ovl_lower', 'phys', 'alt_phys'], 'entries': 'a file, a directory, the filesystem root',
+    ck.bounds = {'configs': ['mem', 'alt', 'ovl_upper', 'ovl_lower', 'ovl_both', 'phys', 'alt_phys'], 'entries': 'a file, a directory, the filesystem root',
                  'setter_sequence_length': 2 if tier == 'quick' else 3,
                  'time_values': 'any 64-bit instant (solver variable); SystemTime::now = fresh symbolic instant',
                  'physical': 'PhysicalFS and AltrootFS over it run on the OS model (filetime::set_file_mtime/atime as stores into the modelled inode; creation time NotSupported); counterexamples are replayed on a real directory',
@@ -726,6 +726,20 @@ def c17(tier, seed):
             cases.append({'cfg': 'mem', 'universe': 'U4', 'shape': rng.choice(dshapes),
                           'programs': [[('create_dir_all', rng.choice(targets))] for _ in range(3)], 'mode': 'all_ok'})
     ck.add(run_cases(prog, threads.run_concurrent_case, cases), 'concurrent create_dir_all on overlapping paths, every interleaving at lock granularity')
+    # different children below a shared ancestor (which may exist only in a lower layer of an overlay)
+    us = UNIVERSES['U4S']()
+    ssh = [sh for sh in shapes(us) if all(k == 'd' for _, k in sh) and len(sh) <= 2]
+    stg = ['a_b', 'a_c', 'a_b_d']
+    sib = []
+    for cfg in (['mem', 'ovl', 'ovl_lowerpre'] if tier == 'quick' else ['mem', 'alt', 'ovl', 'ovl_lowerpre']):
+        for sh in ssh:
+            if cfg == 'ovl_lowerpre' and not sh:
+                continue
+            for i, t1 in enumerate(stg):
+                for t2 in stg[i + 1:]:
+                    sib.append({'cfg': cfg, 'universe': 'U4S', 'shape': sh, 'programs': [[('create_dir_all', t1)], [('create_dir_all', t2)]], 'mode': 'all_ok',
+                                'preemption_bound': None if cfg == 'mem' else (1 if tier == 'quick' else 2)})
+    ck.add(run_cases(prog, threads.run_concurrent_case, sib), 'concurrent create_dir_all of different children below a shared ancestor (in the upper layer, or only in a lower layer)')
     ud = UNIVERSES['USYMD']()
     dsh = [sh for sh in shapes(ud) if all(k == 'd' for _, k in sh)]
     stargets = ['n1', 'n1_n2', 'n1_n2_n3', 'n4']
